@@ -11,7 +11,7 @@ cd /verif
 VERIF_REPO=$W VERIF_EVIDENCE_DIR=/tmp/mutev-$$ VERIF_REPLAY_DIR=/tmp/mutev-$$ timeout ${MUT_TIMEOUT:-1500} ./check $ID --tier $TIER > /tmp/mutev-$$/out.log 2>&1
 RC=$?
 echo "== $NAME vs $ID ($TIER): rc=$RC"
-grep -E "^(VIOLATION|KNOWN|INCONCLUSIVE)" /tmp/mutev-$$/out.log | cut -c1-300 | head -${MUT_LINES:-4}
+(grep -E "^VIOLATION" /tmp/mutev-$$/out.log; grep -E "^(KNOWN|INCONCLUSIVE)" /tmp/mutev-$$/out.log) | cut -c1-300 | head -${MUT_LINES:-4}
 tail -1 /tmp/mutev-$$/out.log | cut -c1-300
 git -C /repo worktree remove --force $W
 rm -rf /tmp/mutev-$$ /verif/.build/target-$(echo -n $W | sha1sum | cut -c1-8)*
